@@ -179,3 +179,13 @@ pub fn ext_from_unknown(pt: u8, min: usize, u: &Unknown<'_>) -> Result<ExtView, 
     }
     dispatch!(pt, min, go,)
 }
+
+/// `utils::writer::write_header_unchecked::<Ext<pt,min>>(padding, count, buf)`
+pub fn ext_write_header(pt: u8, min: usize, padding: u8, count: u8, buf: &mut [u8]) -> usize {
+    macro_rules! go {
+        ($PT:literal, $MIN:literal, ) => {
+            writer::write_header_unchecked::<Ext<'_, $PT, $MIN>>(padding, count, buf)
+        };
+    }
+    dispatch!(pt, min, go,)
+}
